@@ -666,6 +666,79 @@ pub fn run_c09_big(ctx: &mut Ctx) -> R {
 }
 
 
+/// C02 with more than a million frames: the coded frame number passes from three to four and from four
+/// to five bytes (0x1_0000, 0x20_0000); every frame header is judged by refflac, in particular the
+/// shortest-form rule of the coded number and consecutive numbering.
+pub fn run_c02_big(ctx: &mut Ctx) -> R {
+    use flac_codec::encode::{FlacSampleWriter, Options};
+    let ch = ctx.ch.clone();
+    let frames: usize = *ch.pick("c02big.frames", &[0x10_0000usize + 64, 0x20_0000 + 40, 0x10_0000 + 64, 0x1_0000 + 20, 0x20_0000 + 40]);
+    let stream = ch.draw("c02big.front", 2) == 1;
+    ctx.describe(|| format!("{frames} frames of 16 samples, mono 8-bit, {}", if stream { "FlacStreamWriter" } else { "FlacSampleWriter, undeclared length, no seek table" }));
+    let opts = Options::default().block_size(16).unwrap().no_seektable().max_lpc_order(None).unwrap();
+    let mut cur = std::io::Cursor::new(Vec::with_capacity(40 << 20));
+    let block = [0i32; 16];
+    if stream {
+        let mut w = flac_codec::encode::FlacStreamWriter::new(&mut cur, opts);
+        for i in 0..frames {
+            if let Err(e) = w.write(8000, 1, 8, &block) {
+                return viol("encode-failed", format!("stream writer refused frame {i}: {e:?}"));
+            }
+        }
+    } else {
+        let mut w = match FlacSampleWriter::new(&mut cur, opts, 8000, 8, 1, None) {
+            Ok(w) => w,
+            Err(e) => return viol("encode-failed", format!("constructor failed: {e:?}")),
+        };
+        let chunk = vec![0i32; 16 * 4096];
+        let mut left = frames * 16;
+        while left > 0 {
+            let n = left.min(chunk.len());
+            if let Err(e) = w.write(&chunk[..n]) {
+                return viol("encode-failed", format!("write failed: {e:?}"));
+            }
+            left -= n;
+        }
+        if let Err(e) = w.finalize() {
+            return viol("encode-failed", format!("finalize failed with {frames} frames: {e:?}"));
+        }
+    }
+    let bytes = cur.into_inner();
+    probe("c02_more_than_a_million_frames");
+    ctx.eval(frames as u64, true);
+    let (mut pos, si) = if stream {
+        (0, None)
+    } else {
+        match refflac::parse_meta(&bytes, 0) {
+            Ok(m) => (m.audio_start, Some(m.si)),
+            Err(e) => return viol("nonconforming:stream", format!("metadata unparseable: {e:?}")),
+        }
+    };
+    let mut n = 0u64;
+    while pos < bytes.len() {
+        match refflac::parse_frame(&bytes, pos, si.as_ref()) {
+            Ok(f) => {
+                if f.number != n {
+                    return viol("nonconforming:stream", format!("frame {n} carries the coded number {}", f.number));
+                }
+                if let Some(x) = f.strict.first() {
+                    return viol("nonconforming:rule", format!("frame {n} (at byte {pos}): {x}"));
+                }
+                if f.block_size != 16 || f.samples.iter().any(|c| c.len() != 16 || c.iter().any(|&v| v != 0)) {
+                    return viol("not-lossless", format!("frame {n} does not decode to 16 silent samples"));
+                }
+                pos = f.end;
+                n += 1;
+            }
+            Err(e) => return viol("nonconforming:stream", format!("frame {n} at byte {pos} is not a valid frame: {e:?}")),
+        }
+    }
+    if n != frames as u64 {
+        return viol("nonconforming:stream", format!("{frames} frames written, {n} found"));
+    }
+    Ok(())
+}
+
 /// The deterministic short-length sweep of DESIGN 3/C01: every stream length 1..=70 for a drawn
 /// (block 16/32, max LPC order, low-amplitude signal family, mono/stereo) cell — the region where the
 /// final block is shorter than twice the predictor order. Judged by the crate's decoder (C01) or by
